@@ -14,7 +14,8 @@ THEOREMS_BY_PROP = {
             "DepLogic.C02.rewriting_sound", "DepLogic.M.sound_all", "DepLogic.M.singleSound", "DepLogic.M.mergeSingle_ok",
             "DepLogic.M.str_coherent"],
     "C03": ["DepLogic.C03.build_sound", "DepLogic.M.sound_all", "DepLogic.M.singleSound"],
-    "C07": ["DepLogic.C07.str_empty_any", "DepLogic.C03.build_sound"],
+    "C07": ["DepLogic.C07.str_empty_any", "DepLogic.C07.items_sem", "DepLogic.C07.reparse_sound", "DepLogic.C07.items_ok",
+            "DepLogic.C07.atomOf_atomItem", "DepLogic.C03.build_sound"],
     "C12": ["DepLogic.C12.only_mentions", "DepLogic.C12.only_implied", "DepLogic.C12.only_same",
             "DepLogic.C12.exclude_mentions", "DepLogic.C12.exclude_implied", "DepLogic.C12.exclude_same_partial",
             "DepLogic.C12.exclude_same_needs_noVanish", "DepLogic.C12.only_ok", "DepLogic.C12.exclude_ok",
@@ -126,6 +127,8 @@ def check_roundtrip(run, e: E, m, envs, stats) -> None:
         run.fail(core.Failure(key, f"{e.show()} renders {text!r} which does not parse ({type(ex).__name__})", rep))
         return
     run.add(core.Case("C07.reparse", "m.expr\t" + mk.leaf_tokens(text), enc_marker(back) + "\t" + str(back)))
+    # the token list packaging reads from the text vs the list the model says the text denotes
+    run.add(core.Case("C07.tokens", "m.tokens\t" + e.tokens(), mk.enc_ast(PkgMarker(text)._markers), True, ctx=e))
     for env in envs:
         stats["oracle"] += 1
         if ev(back, env) != ev(m, env):
